@@ -64,7 +64,7 @@ const (
 //	  repeated int32 r = 9; repeated Inner ro = 10; repeated string rs = 11;
 //	  map<string,string> m = 12; map<string,Inner> mo = 13;
 //	  string z = 14;
-//	  Flat fl = 15 [(j5.ext.v1.field).object.flatten = true];   // message Flat { string fa = 1; int32 fn = 2; }
+//	  Flat fl = 15 [(j5.ext.v1.field).object.flatten = true];   // message Flat { string fa = 1; int32 fn = 2; Deep deep = 3 [flatten]; }  message Deep { string da = 1; }
 //	  oneof pick { option (j5.ext.v1.oneof).expose = true; string px = 16; int32 pn = 17; }
 //	}
 func verifMsgUniverse() *j5schema.VerifUniverse {
@@ -83,8 +83,12 @@ func verifMsgUniverse() *j5schema.VerifUniverse {
 	os.Proto3Optional = proto.Bool(true)
 	os.OneofIndex = proto.Int32(0)
 	// flattened object: its members are inlined into Root's JSON object
+	// ... and itself holds a flattened object (two levels of inlining)
+	deepMsg := &descriptorpb.DescriptorProto{Name: proto.String("Deep"), Field: []*descriptorpb.FieldDescriptorProto{vmField("da", 1, dtStr, "")}}
+	deep := vmField("deep", 3, dtMsg, ".m.v1.Deep")
+	proto.SetExtension(deep.Options, ext_j5pb.E_Field, &ext_j5pb.FieldOptions{Type: &ext_j5pb.FieldOptions_Object{Object: &ext_j5pb.ObjectField{Flatten: true}}})
 	flatMsg := &descriptorpb.DescriptorProto{Name: proto.String("Flat"), Field: []*descriptorpb.FieldDescriptorProto{
-		vmField("fa", 1, dtStr, ""), vmField("fn", 2, dtI32, "")}}
+		vmField("fa", 1, dtStr, ""), vmField("fn", 2, dtI32, ""), deep}}
 	flat := vmField("fl", 15, dtMsg, ".m.v1.Flat")
 	proto.SetExtension(flat.Options, ext_j5pb.E_Field, &ext_j5pb.FieldOptions{Type: &ext_j5pb.FieldOptions_Object{Object: &ext_j5pb.ObjectField{Flatten: true}}})
 	// exposed oneof: a real oneof of Root presented as the property "pick"
@@ -111,7 +115,7 @@ func verifMsgUniverse() *j5schema.VerifUniverse {
 		return &descriptorpb.EnumValueDescriptorProto{Name: proto.String(name), Number: proto.Int32(n)}
 	}
 	fdp := &descriptorpb.FileDescriptorProto{Name: proto.String("m/v1/m.proto"), Package: proto.String("m.v1"), Syntax: proto.String("proto3"),
-		MessageType: []*descriptorpb.DescriptorProto{inner, choice, flatMsg, root},
+		MessageType: []*descriptorpb.DescriptorProto{inner, choice, deepMsg, flatMsg, root},
 		EnumType:    []*descriptorpb.EnumDescriptorProto{{Name: proto.String("E"), Value: []*descriptorpb.EnumValueDescriptorProto{ev("E_UNSPECIFIED", 0), ev("E_ONE", 1), ev("E_TWO", 2)}}}}
 	return j5schema.VerifNewUniverse(fdp)
 }
@@ -495,6 +499,16 @@ func (vb *vmBuilder) draw() (*j5schema.VerifDynMessage, *refNode) {
 				in.Set(fm.Fields().ByName("fn"), protoreflect.ValueOfInt32(v))
 				want.add("fn", rnNum(int64(v)))
 			}
+			if ndBool("fl.deep-set") {
+				dm := vb.u.Message("m.v1.Deep")
+				dd := j5schema.VerifNewDynMessage(dm)
+				da := vb.text("fl.deep.da", 1)
+				if len(da) > 0 {
+					dd.Set(dm.Fields().ByName("da"), protoreflect.ValueOfString(da))
+					want.add("da", rnStr(da)) // inlined twice: Deep into Flat into Root
+				}
+				in.Set(fm.Fields().ByName("deep"), protoreflect.ValueOfMessage(dd))
+			}
 			m.Set(fd("fl"), protoreflect.ValueOfMessage(in))
 		}
 	case 8: // exposed oneof
@@ -802,7 +816,7 @@ func (v *vmVerdict) readSingular(u *j5schema.VerifUniverse, f protoreflect.Field
 func (v *vmVerdict) readMessage(u *j5schema.VerifUniverse, md *j5schema.VerifMessage, members []jmember) *j5schema.VerifDynMessage {
 	out := j5schema.VerifNewDynMessage(md)
 	isRoot := md.FullName() == "m.v1.Root"
-	var flat *j5schema.VerifDynMessage
+	var flat, deepest *j5schema.VerifDynMessage
 	resolve := func(key string) (*j5schema.VerifDynMessage, protoreflect.FieldDescriptor) {
 		if isRoot {
 			switch key {
@@ -813,7 +827,18 @@ func (v *vmVerdict) readMessage(u *j5schema.VerifUniverse, md *j5schema.VerifMes
 					out.Set(md.Fields().ByName("fl"), protoreflect.ValueOfMessage(flat))
 				}
 				return flat, fm.Fields().ByJSONName(key)
-			case "fl", "px", "pn": // not properties themselves (flattened / inside the exposed oneof)
+			case "da": // member of Deep, flattened into Flat, flattened into Root
+				fm, dm := u.Message("m.v1.Flat"), u.Message("m.v1.Deep")
+				if flat == nil {
+					flat = j5schema.VerifNewDynMessage(fm)
+					out.Set(md.Fields().ByName("fl"), protoreflect.ValueOfMessage(flat))
+				}
+				if deepest == nil {
+					deepest = j5schema.VerifNewDynMessage(dm)
+					flat.Set(fm.Fields().ByName("deep"), protoreflect.ValueOfMessage(deepest))
+				}
+				return deepest, dm.Fields().ByJSONName(key)
+			case "fl", "px", "pn", "deep": // not properties themselves (flattened / inside the exposed oneof)
 				return nil, nil
 			}
 		}
@@ -1008,7 +1033,7 @@ func vmSame(a, b protoreflect.Message, tag string) {
 	}
 }
 
-var jRootKeys = []string{"a", "n", "o", "w", "r", "ro", "m", "mo", "zz", "!type", "fa", "fl", "pick", "px"}
+var jRootKeys = []string{"a", "n", "o", "w", "r", "ro", "m", "mo", "zz", "!type", "fa", "da", "fl", "pick", "px"}
 
 func HarnessMessageDecode() {
 	u := verifMsgUniverse()
@@ -1258,4 +1283,52 @@ func HarnessUnsupportedTarget() {
 		verifReach("query-returned")
 		_ = err
 	}
+}
+
+// ---------- C10: one Codec used from two goroutines ----------
+
+// HarnessConcurrentCodec: two goroutines encode (and decode) on one shared
+// Codec — shared Reflector, schema cache and whatever the encoder keeps
+// between calls (buffers, pools). Every access to memory both can reach is
+// checked for races (vector clocks), and each result must be what the same
+// call gives when run alone.
+func HarnessConcurrentCodec() {
+	u := verifMsgUniverse()
+	rd := u.Message("m.v1.Root")
+	mk := func(tag string) *j5schema.VerifDynMessage {
+		m := j5schema.VerifNewDynMessage(rd)
+		m.Set(rd.Fields().ByName("a"), protoreflect.ValueOfString(tag))
+		if ndBool("nested-" + tag) {
+			in := j5schema.VerifNewDynMessage(u.Message("m.v1.Inner"))
+			in.Set(in.Descriptor().Fields().ByName("n"), protoreflect.ValueOfInt32(7))
+			m.Set(rd.Fields().ByName("o"), protoreflect.ValueOfMessage(in))
+		}
+		return m
+	}
+	m1, m2 := mk("first"), mk("second")
+	c := &Codec{refl: j5reflect.New()}
+	if ndBool("warm") {
+		if _, err := c.encode(mk("warm")); err != nil {
+			verifFail("warm-up-encodes")
+		}
+	}
+	var o1, o2 []byte
+	var e1, e2 error
+	verifSpawn(func() {
+		var b []byte
+		b, e1 = c.encode(m1)
+		o1 = append([]byte{}, b...)
+	})
+	verifSpawn(func() {
+		var b []byte
+		b, e2 = c.encode(m2)
+		o2 = append([]byte{}, b...)
+	})
+	verifJoin()
+	solo := &Codec{refl: j5reflect.New()}
+	s1, se1 := solo.encode(m1)
+	s2, se2 := solo.encode(m2)
+	verifAssert(e1 == nil && e2 == nil && se1 == nil && se2 == nil, "all-encodes-succeed")
+	verifAssert(string(o1) == string(s1), "first-encoding-as-alone")
+	verifAssert(string(o2) == string(s2), "second-encoding-as-alone")
 }
